@@ -1,6 +1,7 @@
 mod emit;
 mod env;
 mod fmts;
+mod lexu;
 mod model;
 mod ops;
 mod report;
